@@ -166,6 +166,125 @@ func (p *Prog) transparentSite(f *ssa.Function) ssa.CallInstruction {
 	return nil
 }
 
+// isNewNamed: a named canopy function that did not exist on the reference tree (whatever its number of call sites) and is
+// never used as a value.
+func (p *Prog) isNewNamed(f *ssa.Function) bool {
+	if p == nil || f == nil {
+		return false
+	}
+	f = origin(f)
+	if f.Parent() != nil || f.Synthetic != "" || len(f.Blocks) == 0 || !inCanopyRaw(f) {
+		return false
+	}
+	nf := p.newFns()
+	return len(nf.ref) > 0 && !nf.ref[fnNameRaw(f)] && !nf.escaped[f] && len(nf.sites[f]) > 0
+}
+
+// newHelperOfAllowed: f is a new helper (shared by several callers, so not folded into one) all of whose static callers are
+// in the allow-table, directly or through further new helpers. Returns the callers' names, "" if not.
+func (p *Prog) newHelperOfAllowed(f *ssa.Function, allowed allow, depth int) string {
+	if depth > 3 || !p.isNewNamed(f) {
+		return ""
+	}
+	var names []string
+	for _, site := range p.newFns().sites[origin(f)] {
+		caller := enclosing(origin(site.Parent()))
+		if _, ok := allowed[caller]; ok {
+			names = append(names, fnNameRaw(caller))
+			continue
+		}
+		if via := p.newHelperOfAllowed(caller, allowed, depth+1); via != "" {
+			names = append(names, via)
+			continue
+		}
+		return ""
+	}
+	sort.Strings(names)
+	return strings.Join(names, ", ")
+}
+
+// Context-sensitive paths: while the path engine analyses a helper in place, its parameters are bound to the arguments of
+// THAT call, and provenance paths computed by rule callbacks (event names, atoms) render them so. The bindings form a
+// stack that follows the engine's (synchronous) in-place analysis.
+func (p *Prog) pushBindings(callee *ssa.Function, args []ssa.Value) {
+	if p.bound == nil {
+		p.bound = map[*ssa.Parameter][]ssa.Value{}
+	}
+	for i, pa := range callee.Params {
+		if i < len(args) {
+			p.bound[pa] = append(p.bound[pa], args[i])
+		}
+	}
+}
+
+func (p *Prog) popBindings(callee *ssa.Function, args []ssa.Value) {
+	for i, pa := range callee.Params {
+		if i < len(args) {
+			if st := p.bound[pa]; len(st) > 0 {
+				p.bound[pa] = st[:len(st)-1]
+			}
+		}
+	}
+}
+
+func (p *Prog) boundArg(pa *ssa.Parameter) ssa.Value {
+	if st := p.bound[pa]; len(st) > 0 {
+		return st[len(st)-1]
+	}
+	return nil
+}
+
+// deepCall is a call found in f or, through a chain of calls to helpers that did not exist on the reference tree, below it.
+type deepCall struct {
+	CS    ssa.CallInstruction
+	Chain []ssa.CallInstruction // the calls from f down to the helper that contains CS (empty: CS is in f itself)
+}
+
+// callsInDeep is callsIn that also looks into new helpers shared by several callers (transparent single-site helpers are
+// already part of callsIn); paths of values at such a call must be rendered with pathIn.
+func (p *Prog) callsInDeep(f *ssa.Function, targets ...*ssa.Function) []deepCall {
+	var out []deepCall
+	var walk func(g *ssa.Function, chain []ssa.CallInstruction, depth int)
+	walk = func(g *ssa.Function, chain []ssa.CallInstruction, depth int) {
+		for _, cs := range callsIn(g, false, targets...) {
+			out = append(out, deepCall{cs, append([]ssa.CallInstruction(nil), chain...)})
+		}
+		if depth >= 2 {
+			return
+		}
+		for _, cs := range allCalls(g) {
+			call, ok := cs.(*ssa.Call)
+			if !ok {
+				continue
+			}
+			sc := call.Common().StaticCallee()
+			if sc == nil || call.Common().IsInvoke() || p.transparentSite(sc) != nil || !p.isNewNamed(sc) {
+				continue
+			}
+			walk(origin(sc), append(chain, cs), depth+1)
+		}
+	}
+	walk(f, nil, 0)
+	return out
+}
+
+// pathIn renders v as seen from the top of the chain: the parameters of each helper on the chain are bound to the
+// arguments of the call that entered it.
+func (p *Prog) pathIn(chain []ssa.CallInstruction, v ssa.Value) string {
+	for _, cs := range chain {
+		if sc := cs.Common().StaticCallee(); sc != nil {
+			p.pushBindings(origin(sc), cs.Common().Args)
+		}
+	}
+	s := p.path(v)
+	for i := len(chain) - 1; i >= 0; i-- {
+		if sc := chain[i].Common().StaticCallee(); sc != nil {
+			p.popBindings(origin(sc), chain[i].Common().Args)
+		}
+	}
+	return s
+}
+
 // bodyFuncs: f (with its function literals if nested) plus the transparent helpers called from them, transitively.
 func bodyFuncs(f *ssa.Function, nested bool) []*ssa.Function {
 	var out []*ssa.Function
